@@ -6,6 +6,50 @@ ROOT = os.path.dirname(os.path.dirname(os.path.abspath(__file__)))
 ALL = ["C%02d" % i for i in range(1, 21)]
 
 CLAIMED = {
+ "C01": dict(
+  text="Lean 4 theorems over the outbound core (Model.Core: counters, queues, store; every Persistence fault an argument of an operation): "
+       "for every operation sequence the record of each accepted message is in the store at the right stage until its in-order final "
+       "acknowledgement (C01_record_until_final_ack), a record leaves the store only through that acknowledgement (C01_delete_only_by_final_ack), "
+       "the exchange is popped only in the deleting step, and from every reachable state the conforming broker's acknowledgements drain "
+       "everything (C01_drain, liveness as a terminating function). Model.Session performs exactly these operations; it is run against the real "
+       "client on random fault histories each ending in a drain epilogue, with monitors judging the implementation's own trace.",
+  design="6/C01", technique="Lean 4 proof (invariants by induction over operation lists) + differential correspondence with drain epilogue",
+  note="Lean kernel; axioms propext, Classical.choice, Quot.sound; A-store, A-conn; publisher/reader interleavings inside one operation belong to the Sync model"),
+ "C02": dict(
+  text="Lean 4 theorems: counter reconstruction is exact for every true in-flight window incl. 14-bit wrap-around, only-PUBREL and "
+       "full-window cases (C02_recon_exact, the arithmetic that exposed F19/F23), true windows pass cleanSequence and the gap rule silently, "
+       "the adopted client continues the identifier sequence, and any adopted client satisfies the core invariant again so every number of "
+       "stop/adopt cycles stays inside the proven state space (C02_generations via C16_adopt_inv). The classification/sort of listed records "
+       "is tied by correspondence: stop/adopt at random operation boundaries, multi-generation, pending set compared with the store snapshot.",
+  design="6/C02", technique="Lean 4 proof (modular arithmetic, list induction) + differential correspondence over stop/adopt histories",
+  note="partial: C02_recon_exact assumes the cleaned lists are the true windows; that the store-to-lists step yields them is covered by the correspondence only"),
+ "C03": dict(
+  text="Lean 4 theorems: recording a PUBREC overwrites the PUBLISH record with the PUBREL before the counter moves; in every reachable state "
+       "each exactly-once transfer between PUBREC and PUBCOMP holds exactly the PUBREL (so no reconnect or restart can load a PUBLISH for it), "
+       "acknowledgements are applied in order only, identifiers are not reused before PUBCOMP (also across the wrap), and the reference broker "
+       "forwards retransmissions once. The implementation's wire is judged by a reference broker on every run.",
+  design="6/C03", technique="Lean 4 proof (store-stage invariant over operation lists) + differential correspondence + reference-broker monitor",
+  note="broker is the reference model of MQTT 3.1.1 4.3.3; A-store, A-conn"),
+ "C05": dict(
+  text="Lean 4 theorems: identifier follows the acceptance counter, a first transmission never carries DUP in any reachable state, a completely "
+       "written PUBLISH is DUP on every later transmission, backlog is reported so later publishes queue behind it, adopted transfers all count as "
+       "submitted. Wire order and DUP flags of the real client are judged on random histories with partial first writes.",
+  design="6/C05", technique="Lean 4 proof (counter invariants) + differential correspondence + wire-order monitor",
+  note="partial: concurrent publishers (sequence-token exclusion) are covered by the Sync model / not by these theorems"),
+ "C16": dict(
+  text="Lean 4 theorem C16_adopt_inv: for ANY store (arbitrary keys and bytes) AdoptSession's reconstructed counters satisfy the client "
+       "invariant whenever it does not refuse on limits - cleanSequence always returns a contiguous run, the PUBREL/PUBLISH gap rule really "
+       "drops, windows equal list lengths - hence resend never spans a hole and new publishes cannot collide. Damage scripts (alter, truncate, "
+       "remove, stray) before AdoptSession are run against the real code with a drain epilogue.",
+  design="6/C16", technique="Lean 4 proof (total function on arbitrary stores) + differential correspondence over damaged stores",
+  note="partial: receive-side damage (inbound markers, client identifier record, F15) is not repaired and not claimed; NoForgery assumed"),
+ "C17": dict(
+  text="Lean 4 theorems: invariant of the core over every operation sequence gives in-flight count <= normalised limit <= 2^14, pairwise "
+       "distinct non-zero identifiers inside each level's range (wrap-around lemma), disjoint spaces (decide on regenerated constants), ErrMax "
+       "exactly when the queue is full with nothing consumed, zero disables a level, fresh identifier never in use. Random histories with "
+       "limits in {0,1,2,3,4,8,-1,16384,20000} are run against the real client.",
+  design="6/C17", technique="Lean 4 proof (invariant + modular arithmetic) + differential correspondence",
+  note="A-ovf (2^64 publishes); subscribe/unsubscribe slot window is modelled in Session, its distinctness theorem is pending"),
  "C08": dict(
   text="Lean 4 theorems: for every packet, every split into buffers and every sequence of Write outcomes (short writes, deadline expiries "
        "with and without progress, hard and closed errors) the bytes writeTo/writeBuffersTo put on a connection are a prefix of the packet and "
